@@ -36,6 +36,10 @@ def run_case(prop, case, timeout_s=30.0, keep_log=False):
             res.violation = prop.run(case, res)
         finally:
             signal.setitimer(signal.ITIMER_REAL, 0)
+    except common.ForeignMismatch as e:
+        signal.setitimer(signal.ITIMER_REAL, 0)
+        res.violation = Violation('foreign_activity', 'foreign_design_misbehaves',
+                                  {'what': str(e)}, ['foreign'])
     except RunTimeout:
         signal.setitimer(signal.ITIMER_REAL, 0)
         hang = getattr(prop, 'HANG_IS_VIOLATION', False)
